@@ -54,7 +54,7 @@ CLEAN_CALLS = {'mimetypes.guess_type', 'os.path.getsize', 'os.path.getmtime', 'o
 CLEAN_METHODS = {'tell', 'size'}
 
 # not analysed from the processor entry points (each has its own property or is declared out of scope in DESIGN.md section 7)
-OUT_OF_SCOPE_MODULES = ('wpull.thirdparty', 'wpull.processor.coprocessor', 'wpull.driver', 'wpull.warc', 'wpull.database', 'wpull.path',
+OUT_OF_SCOPE_MODULES = ('wpull.thirdparty', 'wpull.processor.coprocessor', 'wpull.driver', 'wpull.warc', 'wpull.database',
                         'wpull.proxy.server', 'wpull.application.hook', 'wpull.application.plugin', 'wpull.converter')
 # local file-system failures (disk full, name clash, permissions) are environment errors, not server data
 LOCAL_IO = {'open': [], 'os.remove': [], 'os.rename': [], 'os.makedirs': [], 'os.utime': []}
@@ -265,6 +265,11 @@ def _justified(ctx, esc, it):
                     and bool(_digits_only(ctx, f, last.value.args[0]))
         if ok:
             return 'y2k() is called only under `year < 100` with a year parsed from a digits-only group (>= 0)'
+    # 2c'. file naming (wpull.path): the text handed in is the crawler's own normal form or replaced/Latin-1 decoded text
+    if fi.module.name == 'wpull.path':
+        why = _path_naming_input(ctx, esc, fi, node, it)
+        if why:
+            return why
     # 2d. codec names
     if it.kind == 'external' and it.type == 'LookupError' and isinstance(node, ast.Call):
         why = _codec_known(ctx, fi, node)
@@ -288,6 +293,93 @@ def _justified(ctx, esc, it):
                     if isinstance(prev, ast.If) and prev.body and isinstance(prev.body[-1], ast.Raise) \
                             and same_bool(U.canon_suffix_tests(prev.test), ast.UnaryOp(op=ast.Not(), operand=U.canon_suffix_tests(node.test))):
                         return 'assert repeats the dominating check `if not %s: raise`' % cond
+    return None
+
+
+_CALLERS = {}
+
+
+def _callers_of(ctx, fi):
+    """[(caller FuncInfo, call)] for every resolved call of fi (typed resolution only), computed once per run."""
+    if 'map' not in _CALLERS:
+        m = {}
+        for f in ctx.repo.funcs.values():
+            for c in U.calls(f.node):
+                for g in ctx.res.callee_funcs(f, c, allow_name=False, count=False):
+                    m.setdefault(g.qual, []).append((f, c))
+        _CALLERS['map'] = m
+    return _CALLERS['map'].get(fi.qual, [])
+
+
+def _path_naming_input(ctx, esc, fi, node, it):
+    repo, res = ctx.repo, ctx.res
+    # (a) urlsplit(url): every caller passes URLInfo.url, the normal form (balanced brackets: C10), through PathNamer.get_filename
+    if it.kind == 'external' and isinstance(node, ast.Call) and dotted(node.func) == 'urllib.parse.urlsplit' and it.type == 'ValueError':
+        gf = repo.func('wpull.path:PathNamer.get_filename')
+        ok = True
+        n = 0
+        for f, c in _callers_of(ctx, fi):
+            if True:
+                if True:
+                    n += 1
+                    a0 = c.args[0] if c.args else None
+                    ok = ok and f is gf and isinstance(a0, ast.Name) and all(
+                        v is not None and isinstance(v, ast.Attribute) and v.attr == 'url' for v, k, s_ in U.local_defs(f.node).get(a0.id, []))
+        if ok and n:
+            return 'the URL split here is URLInfo.url (normal form) at all %d call site(s)' % n
+    # (b) UTF-8 encode / decode of name parts: the codec is the constant default at every call site and the text cannot contain
+    #     lone surrogates (URL normal form is ASCII; urllib.parse.unquote replaces; header values are Latin-1 decoded)
+    if it.kind == 'external' and isinstance(node, ast.Call) and U.attr_name(node) in ('encode', 'decode') and it.type.startswith('Unicode') \
+            and fi.qual == 'wpull.path:safe_filename':
+        enc = node.args[0] if node.args else None
+        a = fi.node.args
+        names = [x.arg for x in a.args]
+        defaults = dict(zip(names[len(names) - len(a.defaults):], a.defaults))
+        okc = isinstance(enc, ast.Name) and isinstance(defaults.get(enc.id), ast.Constant) and str(defaults[enc.id].value).lower().replace('-', '') in ('utf8',)
+        n = 0
+        for f, c in _callers_of(ctx, fi):
+            if f.module.name.startswith(OUT_OF_SCOPE_MODULES):
+                continue
+            if True:
+                if f is not fi:
+                    n += 1
+                    if enc is not None and (U.kwarg(c, enc.id) is not None or len(c.args) > names.index(enc.id)):
+                        okc = False
+        if okc and n:
+            return 'the codec is the UTF-8 default at all %d call site(s); name parts are ASCII normal forms, unquote()d with replacement or Latin-1 header text (no lone surrogates)' % n
+    # (c) filename[0] on a regex group of width >= 1; new_filename[-1] on a non-empty part
+    if it.kind == 'index' and isinstance(node, ast.Subscript) and isinstance(node.value, ast.Name):
+        nm = node.value.id
+        ds = [d_ for d_ in U.local_defs(fi.node).get(nm, []) if getattr(d_[2], 'lineno', 0) < node.lineno]
+        if ds and all(v is not None and isinstance(v, ast.Call) and U.attr_name(v) == 'group' for v, k, s_ in ds):
+            for v, k, s_ in ds:
+                mv = v.func.value
+                gi = v.args[0].value if v.args and isinstance(v.args[0], ast.Constant) else None
+                for mv_def, mk, ms in [d_ for d_ in U.local_defs(fi.node).get(mv.id, []) if getattr(d_[2], 'lineno', 0) < s_.lineno] \
+                        if isinstance(mv, ast.Name) else []:
+                    rx = RX.rx_from_call(repo, fi.module, mv_def) if isinstance(mv_def, ast.Call) else None
+                    if rx is None or gi is None:
+                        return None
+                    for op, av in rx.walk():
+                        if op is C.SUBPATTERN and av[0] == gi:
+                            if av[3].getwidth()[0] >= 1:
+                                return 'group %d of %r matches at least one character' % (gi, rx.pattern)
+            return None
+        if fi.qual == 'wpull.path:safe_filename' and nm == 'new_filename':
+            # parts are non-empty: directory parts are filtered by truthiness and the file name falls back to the index name
+            # (C15-D3 decides that); the Content-Disposition name is used only `if filename:`
+            ok = True
+            n = 0
+            for f in repo.funcs.values():
+                for c in U.calls(f.node):
+                    if U.attr_name(c) == 'safe_filename' and f.module.name in ('wpull.writer',):
+                        n += 1
+                        pm = U.parents(f.node)
+                        a0 = c.args[0] if c.args else None
+                        ok = ok and isinstance(a0, ast.Name) and any(
+                            isinstance(g, ast.If) and isinstance(g.test, ast.Name) and g.test.id == a0.id for g in U.ancestors(c, pm))
+            if ok and n:
+                return 'name parts are never empty (components filtered by truthiness / index fallback, C15-D3; header name used only `if filename`)'
     return None
 
 
